@@ -879,10 +879,11 @@ where
 			{
 				match identifier
 				{
-					Some(identifier) =>
+					Some(identifier) if identifier.is_resolved() =>
 					{
 						Ok(format!("{}#?", identifier.rebuild(indentation)?))
 					}
+					Some(identifier) => identifier.rebuild(indentation),
 					None => Ok("structure".to_string()),
 				}
 			}
